@@ -22,3 +22,16 @@ Proof. exact wave_init. Qed.
 Theorem C03_wf : forall lut ws ds zreg r, wf_args ws ds zreg -> wave_eval lut ws ds zreg = Some r ->
   wf_wave (r_z r) /\ length (r_z r) = length zreg /\ ntrans (r_z r) < length zreg.
 Proof. exact wave_wf. Qed.
+
+(** CIRCUIT LEVEL: for ANY op list, non-negative delays, capacities >= 4 and well-formed input waveforms, every signal's
+    waveform is well formed, starts at the Boolean (LUT) evaluation of the inputs' initial values and ends, by transition
+    parity, at the Boolean evaluation of their final values -- whether or not waveforms overflow.  (With C01_build_ops_solution
+    the Boolean evaluation of SimOps' op list is the netlist's gate-by-gate function.) *)
+From KV Require Import Model.SimOps Model.WaveOps.
+From KV Require Proofs.WaveCircuit.
+Theorem C03_circuit_settles : forall delays cap ops (e : wenv),
+  KV.Proofs.WaveCircuit.good_delays delays -> KV.Proofs.WaveCircuit.good_caps cap -> (forall k, wf_wave (e k)) ->
+  forall k, wf_wave (wexec delays cap ops e k) /\
+            init_val (wexec delays cap ops e k) = bexec ops (fun j => init_val (e j)) k /\
+            final_val (wexec delays cap ops e k) = bexec ops (fun j => final_val (e j)) k.
+Proof. exact KV.Proofs.WaveCircuit.wave_circuit_settles. Qed.
